@@ -19,7 +19,7 @@ def run(ctx, replay_case):
     full = core.run_impl([c.op("S") for c in wf])
     cuts = []
     for c, b in zip(wf, full):
-        if not b[-1].startswith("R done") or not ds.widths_ok(b, L):
+        if not ds.usable(ctx, c, b, L, ctx.stats.setdefault("inputs", {})):
             continue
         n = len(c.data)
         ks = range(n) if (ctx.tier == "thorough" or n <= 24) else sorted(set(rnd.sample(range(n), 24)) | {0, 1, n - 1})
